@@ -27,6 +27,8 @@ var builtin = []string{
 	// Functions
 	"append", "cap", "clear", "close", "complex", "copy", "delete", "imag", "len",
 	"make", "max", "min", "new", "panic", "print", "println", "real", "recover",
+	// Blank identifier (not a valid package name)
+	"_",
 }
 
 // isIDValid checks if a name is a valid identifier in Go.
